@@ -10,6 +10,7 @@ from typing import Union, Callable
 # Local imports
 from ...connect import Connectable
 from ...portref import PortRef
+from ...instance import InstanceArray
 from ...signal import Signal
 from ...slice import Slice
 from ...concat import Concat
@@ -78,6 +79,10 @@ def ref_width(ref: Union[PortRef, BundleRef], failer: Callable = fail) -> int:
         referent = resolve_bundleref_type(ref, failer)
     elif isinstance(ref, PortRef):
         referent = resolve_portref_type(ref)
+        if isinstance(ref.inst, InstanceArray) and isinstance(referent, Signal):
+            # A reference into an array stands for the whole connection of that port, which is
+            # either one port-width (broadcast) or `n` of them. Not cached: the port can be re-connected.
+            return array_portref_width(ref, referent, failer)
     else:
         return failer(f"Invalid arg to ref_width {ref}")
 
@@ -88,3 +93,22 @@ def ref_width(ref: Union[PortRef, BundleRef], failer: Callable = fail) -> int:
     if isinstance(referent, BundleInstance):
         return failer(f"Invalid `width` of Bundle {referent}")
     return failer(f"Invalid `width` of {referent}")
+
+
+def array_portref_width(ref: PortRef, port: Signal, failer: Callable = fail) -> int:
+    """Width of `ref`, a reference to scalar port `port` of an `InstanceArray`.
+    This is the width of what the port is connected to. If it is not connected,
+    elaboration creates a Signal of the port's width for it, shared by all array elements."""
+
+    conn = ref.inst.conns.get(ref.portname, None)
+    if conn is None or isinstance(conn, NoConn):
+        return port.width
+
+    # Follow the connection, which can be another such reference. Guard against cycles of them.
+    if getattr(ref, "_width_pending", False):
+        return failer(f"Circular reference through {ref}")
+    ref._width_pending = True
+    try:
+        return width(conn, failer)
+    finally:
+        ref._width_pending = False
